@@ -131,10 +131,12 @@ func (c *containerServer) sendLoop() {
 			if !ok {
 				return
 			}
+			verifMsg(vpContSendPre, &rep.Reply, &rep.Msg)
 			err := c.socket.SendMsg(rep.Reply, rep.Msg)
 			for _, f := range rep.FileToClose {
 				f.Close()
 			}
+			verifMsg(vpContSendPost, &rep.Reply, &rep.Msg)
 			if err != nil {
 				c.socketError(err)
 				return
@@ -154,6 +156,7 @@ func (c *containerServer) recvLoop() {
 			c.socketError(err)
 			return
 		}
+		verifPoint(vpContRecv, int(cmd.Cmd))
 		c.recvCh <- recvCmd{
 			Cmd: cmd,
 			Msg: msg,
@@ -179,6 +182,7 @@ func (c *containerServer) waitLoop() {
 			for err == syscall.EINTR {
 				_, err = syscall.Wait4(pid, &waitStatus, 0, &rusage)
 			}
+			verifPoint(vpContWaited, pid)
 			if err != nil {
 				c.waitPidResult <- waitPidResult{
 					Err: err,
@@ -218,6 +222,7 @@ func (c *containerServer) serve() error {
 }
 
 func (c *containerServer) handleCmd(cmd cmd, msg unixsocket.Msg) error {
+	verifPoint(vpContDispatch, int(cmd.Cmd))
 	switch cmd.Cmd {
 	case cmdPing:
 		return c.handlePing()
